@@ -1,6 +1,7 @@
 (* C12 — User-triggered termination reaches every process exactly once.
    Statements only; proofs live in UserTrig/UserTrigProofs.v. *)
 From PV Require Import Base.Tac UserTrig.UserTrigDefs UserTrig.UserTrigProofs.
+From PV Require UserTrig.ArriveDefs UserTrig.ArriveProofs.
 Local Open Scope Z_scope.
 
 (* every process other than the root is the destination of exactly one
@@ -33,6 +34,40 @@ Print Assumptions C12_children_distinct.
 Theorem C12_children_in_range : forall n root me i r, 0 < n -> sends n root me i r -> 0 <= r < n.
 Proof. exact sends_in_range. Qed.
 Print Assumptions C12_children_in_range.
+
+(* ---- arrival of the notification at a process (UserTrig/ArriveDefs.v) ----
+   whatever the moment at which the notification arrives relative to the registration of the
+   taskpool and to taskpool_ready (ini = 0: not registered yet, 1: registered but not ready,
+   2: ready), and whatever the interleaving of the communication thread with the main thread,
+   the process handles the notification (terminates, notifies its children, runs the callback)
+   at most once, only while BUSY, and exactly once when both threads are done; the message is
+   never left parked and the delayed-message lock is free *)
+Theorem C12_arrival_exactly_once : forall ini sched,
+  let s := ArriveDefs.run sched (ArriveDefs.init ini) in
+  (ArriveDefs.delivered s <= 1 /\ ArriveDefs.bad s = 0 /\ ArriveDefs.parked s + ArriveDefs.delivered s <= 1 /\
+   (ArriveDefs.finished s = true ->
+      ArriveDefs.delivered s = 1 /\ ArriveDefs.parked s = 0 /\ ArriveDefs.lock_of s = 0 /\ ArriveDefs.tp_of s = 3))%nat.
+Proof. exact ArriveProofs.arrival_exactly_once. Qed.
+Print Assumptions C12_arrival_exactly_once.
+
+(* and both threads do finish: after any schedule, six rounds that run both threads complete them *)
+Theorem C12_arrival_terminates : forall ini sched,
+  ArriveDefs.finished (ArriveDefs.run (ArriveProofs.rounds 6) (ArriveDefs.run sched (ArriveDefs.init ini))) = true.
+Proof. exact ArriveProofs.arrival_terminates. Qed.
+Print Assumptions C12_arrival_terminates.
+
+(* the second taskpool lookup, under the list lock, is necessary: re-testing what the first lookup
+   returned parks the notification for ever in one interleaving *)
+Theorem C12_stale_recheck_refuted :
+  exists sched, let s := fold_left (ArriveProofs.step_stale 0) sched (ArriveDefs.init 0) in
+    ArriveDefs.finished s = true /\ ArriveDefs.delivered s = 0%nat /\ ArriveDefs.parked s = 1%nat.
+Proof. exact ArriveProofs.stale_recheck_refuted. Qed.
+Print Assumptions C12_stale_recheck_refuted.
+
+(* non-vacuity of the arrival theorems: the notification overtakes the registration *)
+Example C12_arrival_example :
+  ArriveDefs.run [0; 0; 0; 0; 0; 1; 1; 1; 1; 1]%nat (ArriveDefs.init 0) = (6, 5, 3, 0, 0, 1, 0)%nat.
+Proof. vm_compute. reflexivity. Qed.
 
 (* non-vacuity: 5 processes, root 3: rank 0 is notified by rank 4 only *)
 Example C12_example : children 5 3 3 = [4; 0] /\ children 5 3 4 = [1; 2] /\ children 5 3 0 = [] /\
